@@ -217,7 +217,13 @@ def run(ctx):
             ctx.undecided(R1, f"record:{ci.name}", "cannot extract wrapper record shape / reader accesses", arm)
             continue
         problems, checked = compare(shape, acc, {})
+        # a record member read under a computed key (`dict_[key] for key in <table>`) is read, but which member cannot be told here:
+        # "never consumed" is then not a decided verdict
+        dynamic_reads = any(isinstance(n, ast.Subscript) and norm(n.value) == "dict_" and const_str(n.slice) is None and isinstance(n.ctx, ast.Load) for st in body for n in ast.walk(st))
         for kind, path, detail, w in problems:
+            if kind == "B-unread" and dynamic_reads:
+                ctx.undecided(R1, f"record:{ci.name}:{'/'.join(path)}:{kind}", f"{ci.name}: the reader takes members of the record under computed keys; whether {'/'.join(path)} is among them is not decided", w or arm.where)
+                continue
             ctx.violation(R1, f"record:{ci.name}:{'/'.join(path)}:{kind}", f"{ci.name}: {detail}", w or arm.where)
         badp = {p[1] for p in problems}
         for kind, path, flag in checked:
@@ -257,6 +263,10 @@ def run(ctx):
                 ctx.violation(R3, cons, f"field {ci.name}.{f} is never written by {arm.qualname}: it cannot survive a round trip", arm)
                 continue
             key = key_of_field[f]
+            if a is None and any(isinstance(x, ast.Starred) for x in ctor.args):
+                # the remaining positional arguments are splatted from a computed sequence: which slot receives what is not decided here
+                ctx.undecided(R3, cons, f"constructor slot {f} of {ci.name} is filled from a splatted sequence ({short(ctor, 80)})", where)
+                continue
             if a is None:
                 ctx.violation(R3, cons, f"reader does not pass a value for constructor slot {f} of {ci.name}", where)
                 continue
